@@ -272,17 +272,16 @@ theorem imageFound_ext {S : List Char} {l l' : List IRule} (hE : Ext S l l') (ho
   · exact linkRef_ext hE hok lx mn s _ _ _ _ hend hk hs
 
 theorem imageEmit_ext {S : List Char} (lx : LExt) (parse parse' : List Char → Except PyErr (List Tok))
-    (hparse : ∀ c : List Char, (∀ ch ∈ c, ch ∈ S) → parse c = parse' c) (s : IState) (labelStart labelEnd : Nat) (href title label : List Char)
+    (hparse : ∀ c : List Char, c <:+: S → parse c = parse' c) (s : IState) (labelStart labelEnd : Nat) (href title label : List Char)
     (hs : s.src = S) : imageEmit lx parse s labelStart labelEnd href title label = imageEmit lx parse' s labelStart labelEnd href title label := by
   unfold imageEmit
   simp only
   rw [hparse ((s.src.take labelEnd).drop labelStart) (by
-    intro ch hch
     rw [← hs]
-    exact List.mem_of_mem_take (List.mem_of_mem_drop hch))]
+    exact (List.drop_suffix labelStart _).isInfix.trans (List.take_prefix labelEnd s.src).isInfix)]
 
 theorem agree_image {S : List Char} {l l' : List IRule} (hE : Ext S l l') (hok : ∀ r ∈ l, IOK4 r) (ext : IExt) (lx : LExt) (mn : Int)
-    (parse parse' : List Char → Except PyErr (List Tok)) (hparse : ∀ c : List Char, (∀ ch ∈ c, ch ∈ S) → parse c = parse' c) :
+    (parse parse' : List Char → Except PyErr (List Tok)) (hparse : ∀ c : List Char, c <:+: S → parse c = parse' c) :
     AgreeAt S (ruleImage ext lx mn l parse) (ruleImage ext lx mn l' parse') := by
   intro s silent hc hk hs
   have hin : s.pos < s.src.length := by have := hc.1; have := hc.2; omega
@@ -431,7 +430,8 @@ def Clean (a b : Sw) (S : List Char) : Prop :=
   ∧ (a.link ≠ b.link → '[' ∉ S) ∧ (a.image ≠ b.image → '!' ∉ S) ∧ (a.autolink ≠ b.autolink → '<' ∉ S)
   ∧ (a.htmlInline ≠ b.htmlInline → '<' ∉ S) ∧ (a.entity ≠ b.entity → '&' ∉ S)
 
-theorem Clean.sub {a b : Sw} {S c : List Char} (h : Clean a b S) (hc : ∀ ch ∈ c, ch ∈ S) : Clean a b c := by
+theorem Clean.sub {a b : Sw} {S c : List Char} (h : Clean a b S) (hinf : c <:+: S) : Clean a b c := by
+  have hc : ∀ ch ∈ c, ch ∈ S := fun ch hch => hinf.subset hch
   obtain ⟨h1, h2, h3, h4, h5, h6, h7, h8⟩ := h
   exact ⟨fun x m => h1 x (hc _ m), fun x m => h2 x (hc _ m), fun x m => h3 x (hc _ m), fun x m => h4 x (hc _ m),
     fun x m => h5 x (hc _ m), fun x m => h6 x (hc _ m), fun x m => h7 x (hc _ m), fun x m => h8 x (hc _ m)⟩
@@ -455,7 +455,7 @@ theorem chain_ext (cls : QCls) (ext : IExt) (lx : LExt) (text strike emphasis fr
     obtain ⟨h1, h2, h3, h4, h5, h6, h7, h8⟩ := hcl
     have hE := ih S ⟨h1, h2, h3, h4, h5, h6, h7, h8⟩
     have hok := imgChain_ok4 cls ext lx text a.newline a.escape a.backticks strike emphasis a.link a.image a.autolink a.htmlInline a.entity fragJoin mn d
-    have hparse : ∀ c : List Char, (∀ ch ∈ c, ch ∈ S) →
+    have hparse : ∀ c : List Char, c <:+: S →
         inlineParse (chainOf cls ext lx text strike emphasis fragJoin a mn d) (imgPost strike emphasis) fragJoin mn c
           = inlineParse (chainOf cls ext lx text strike emphasis fragJoin b mn d) (imgPost strike emphasis) fragJoin mn c := by
       intro c hc
